@@ -3,6 +3,7 @@ import CuriesVerif.Basic
 import CuriesVerif.Model.Converter
 import CuriesVerif.Model.Incremental
 import CuriesVerif.Model.Run
+import CuriesVerif.Model.Loaders
 import CuriesVerif.Codec
 import CuriesVerif.Program
 import CuriesVerif.Spec.Answer
